@@ -806,22 +806,30 @@ func (e *engine) apply(o Op) *failure {
 	switch o.K {
 	case "sub":
 		got := errAnswer
-		if q, err := e.p.Subscribe([]byte(o.F), o.Q, idents[o.S]); err == nil {
+		fb := []byte(o.F)
+		if q, err := e.p.Subscribe(fb, o.Q, idents[o.S]); err == nil {
 			got = "ok:" + strconv.Itoa(int(q))
 		}
+		scribble(fb) // the caller's bytes are the caller's (a connection's buffer is reused): the store must have copied what it keeps
 		if got != want {
 			e.got = obsv{ret: got}
 			return e.judge(probe{kind: 'C'}, func() string { return want })
 		}
 	case "unsub":
 		// "error expected or tolerated": only the state afterwards is judged
-		e.p.Unsubscribe([]byte(o.F), idents[o.S])
+		fb := []byte(o.F)
+		e.p.Unsubscribe(fb, idents[o.S])
+		scribble(fb)
 	case "unsuball":
-		e.p.Unsubscribe([]byte(o.F), nil)
+		fb := []byte(o.F)
+		e.p.Unsubscribe(fb, nil)
+		scribble(fb)
 	case "ret":
 		m := message.NewPublishMessage()
-		m.SetTopic([]byte(o.F))
-		m.SetPayload(append([]byte(nil), o.P...))
+		tb, pb := []byte(o.F), append([]byte(nil), o.P...)
+		defer func() { scribble(tb); scribble(pb) }()
+		m.SetTopic(tb)
+		m.SetPayload(pb)
 		m.SetQoS(o.Q)
 		m.SetRetain(true)
 		if o.Q > 0 {
@@ -831,6 +839,13 @@ func (e *engine) apply(o Op) *failure {
 		e.p.Retain(m)
 	}
 	return nil
+}
+
+// scribble overwrites bytes the harness handed to the store.
+func scribble(b []byte) {
+	for i := range b {
+		b[i] = 'Z'
+	}
 }
 
 // sameSubs compares the library's last answer with want as multisets.
